@@ -494,20 +494,27 @@ def check(prop, tier, seed, replay=None):
 
 
 def setup():
+    """Build what the registered checks need (Lean proofs + drivers of every claimed property, library
+    cache). A failure for one property is reported but does not stop the others: each check rebuilds
+    its own targets anyway and reports a broken build as a broken proof obligation."""
+    try:
+        props = [c["property_id"] for c in json.load(open(os.path.join(VERIF, "MANIFEST.json")))["checks"]]
+    except Exception:
+        props = []
+    rc = 0
     with Lock("lake"):
-        r = run_cmd(["lake", "build"], cwd=LEAN)
-        print(r.stdout[-3000:])
-        if r.returncode != 0:
-            return 1
-        drivers = [n[:-5] for n in os.listdir(os.path.join(LEAN, "Driver")) if n.endswith(".lean")]
-        r = run_cmd(["lake", "build"] + ["drv_" + d.lower() for d in sorted(drivers)], cwd=LEAN)
-        print(r.stdout[-3000:])
-        if r.returncode != 0:
-            return 1
+        for p in props:
+            r = run_cmd(["lake", "build", "LpProofs." + p, "drv_" + p.lower()], cwd=LEAN)
+            print("setup: lake build %s: %s" % (p, "ok" if r.returncode == 0 else "FAILED\n" + r.stdout[-2000:]))
     libdir, err = build_lib()
     if err:
         print(err)   # not fatal for setup: the checks report it
-    return 0
+    else:
+        with ThreadPoolExecutor(NCPU) as ex:
+            for p, (exe, e) in zip(props, ex.map(lambda p: build_harness(p, libdir), props)):
+                if e:
+                    print("setup: harness %s: %s" % (p, e[-500:]))
+    return rc
 
 
 def main():
